@@ -69,6 +69,8 @@ DropCall(s, c)       == [s EXCEPT !.calls = [x \in DOMAIN s.calls \ {c} |-> s.ca
 NoBody == <<"empty", "">>
 NoCached == <<"none", "">>
 
+PcSOff == [pc |-> "off", by |-> <<>>, rtp |-> <<>>, todo |-> {}, reason |-> "", dl |-> 0, tterm |-> 0, treap |-> 0]
+
 NoRes == [status |-> 0, et |-> "", kind |-> "", inv |-> 0, pl |-> 0, reason |-> ""]
 Res(status, et) == [NoRes EXCEPT !.status = status, !.et = et]
 
@@ -95,7 +97,7 @@ State0(files, lf) ==
       shutOn |-> FALSE, shutAwait |-> {},
       pcV |-> [pc |-> "off", k |-> 0, src |-> 0, err |-> ""],    \* handleInvoke (k: request id, src: dispatching call)
       rs |-> <<>>, rdone |-> 0,                                  \* Server.Reset goroutines, pending ResetDoneChan messages
-      pcS |-> [pc |-> "off", by |-> <<>>, rtp |-> <<>>, todo |-> {}, reason |-> ""],  \* shutdown()
+      pcS |-> PcSOff,  \* shutdown()
       pcW |-> [pc |-> "idle", p |-> <<>>, err |-> ""],           \* events watcher
       srv |-> [inv |-> 0, stream |-> FALSE, sent |-> FALSE, sowner |-> 0, cached |-> NoCached, phase |-> "idle",
                done |-> "empty", doneId |-> 0, initOut |-> "unset", resc |-> {}],
@@ -104,6 +106,8 @@ State0(files, lf) ==
       ninv |-> 0,
       calls |-> <<>>, ncalls |-> 0,
       crashed |-> FALSE,
+      drvDl |-> 0,
+      drv |-> "idle",                  \* platform driver calling Server.Reset / Server.Shutdown directly
       tel |-> <<>> ]
 
 Init == \E files \in SUBSET ExtUniverse : \E lf \in SUBSET (files \cup {RtBase}) : st = State0(files, lf)
@@ -131,9 +135,13 @@ InitBegin(s, ctx) ==
                        !.pcI = [pc |-> "d2", ctx |-> ctx, err |-> ""]]
        ELSE [s1 EXCEPT !.toExec = <<>>, !.pcI = [pc |-> "end", ctx |-> ctx, err |-> "ErrGateIntegrity"]]
 
-\* Server.Init: the platform starts initialisation (observable: InitCall)
-StartInitEn(s) == s.srv.initOut = "unset" /\ s.hm = "free"
-StartInitDo(s) == InitBegin([s EXCEPT !.hm = "init", !.srv.initOut = "pending", !.srv.phase = "init"], "init")
+\* Server.Init: the platform starts initialisation (observable: InitCall); HandleInit runs in its own
+\* goroutine and queues on the handler mutex like every other handler
+StartInitEn(s) == s.srv.initOut = "unset"
+StartInitDo(s) == [s EXCEPT !.srv.initOut = "pending", !.srv.phase = "init", !.pcI.pc = "spawned"]
+
+InitLockEn(s) == s.pcI.pc = "spawned" /\ s.hm = "free"
+InitLockDo(s) == InitBegin([s EXCEPT !.hm = "init"], "init")
 
 \* d2: create and launch the next external extension (observable: Exec, unless creation fails)
 LaunchExtEn(s) == s.pcI.pc = "d2" /\ Len(s.toExec) > 0
@@ -321,12 +329,12 @@ FioAwaitInitDo(s, k) ==
 FioShutdownEn(s, k) == s.iv[k].f = "shut" /\ s.hm = "free" /\ s.pcS.pc = "off"
 FioShutdownDo(s, k) ==
     [s EXCEPT !.hm = "shutdown", !.iv[k].f = "shutw",
-              !.pcS = [pc |-> "s0", by |-> <<"fio", k>>, rtp |-> <<>>, todo |-> {}, reason |-> "spindown"]]
+              !.pcS = [pc |-> "s0", by |-> <<"fio", k>>, rtp |-> <<>>, todo |-> {}, reason |-> "spindown", dl |-> 0, tterm |-> 0, treap |-> 0]]
 
 FioShutdownDoneEn(s, k) == s.iv[k].f = "shutw" /\ s.pcS.pc = "done" /\ s.pcS.by = <<"fio", k>>
 FioShutdownDoneDo(s, k) ==
     [s EXCEPT !.hm = "free", !.iv[k].f = "fast", !.srv.phase = "idle",
-              !.pcS = [pc |-> "off", by |-> <<>>, rtp |-> <<>>, todo |-> {}, reason |-> ""]]
+              !.pcS = PcSOff]
 
 \* FastInvoke: attach this call's reply stream to whatever reservation is current, take its id,
 \* start the inner goroutine
@@ -369,7 +377,7 @@ RelAwaitDo(s, k) ==
     ELSE IF s.srv.done = "fail"
     THEN [s EXCEPT !.srv.done = "empty", !.srv.phase = "idle", !.iv[k].r = "rst",
                    !.rs = [x \in DOMAIN s.rs \cup {<<k, "F">>} |->
-                              IF x = <<k, "F">> THEN [pc |-> "r0", reason |-> "ReleaseFail"] ELSE s.rs[x]]]
+                              IF x = <<k, "F">> THEN [pc |-> "r0", reason |-> "ReleaseFail", dl |-> 0] ELSE s.rs[x]]]
     ELSE [s EXCEPT !.srv.phase = "idle", !.iv[k].r = "sendok"]     \* ErrReleaseReservationDone is not an error
 
 \* Reset returned to the release goroutine: Release, then the error goes to main
@@ -389,7 +397,8 @@ MainTimeoutEn(s, k) == s.iv[k].m = "sel"
 MainTimeoutDo(s, k) ==
     [s EXCEPT !.iv[k].m = "rst",
               !.rs = [x \in DOMAIN s.rs \cup {<<k, "T">>} |->
-                         IF x = <<k, "T">> THEN [pc |-> "r0", reason |-> "Timeout"] ELSE s.rs[x]]]
+                         IF x = <<k, "T">> THEN [pc |-> "r0", reason |-> "Timeout", dl |-> s.iv[k].t0 + s.timeoutMs + 2000]
+                         ELSE s.rs[x]]]
 
 MainAfterResetEn(s, k) == s.iv[k].m = "rst" /\ s.rdone > 0
 MainAfterResetDo(s, k) == [Release([s EXCEPT !.rdone = @ - 1]) EXCEPT !.iv[k].m = "sel2"]
@@ -414,13 +423,13 @@ ResetCancelDo(s, x) == [CancelFlows(s, "reset") EXCEPT !.rs[x].pc = "r1"]
 ResetLockEn(s, x) == s.rs[x].pc = "r1" /\ s.hm = "free" /\ s.pcS.pc = "off"
 ResetLockDo(s, x) ==
     [s EXCEPT !.hm = "reset", !.rs[x].pc = "r2",
-              !.pcS = [pc |-> "s0", by |-> <<"reset", x>>, rtp |-> <<>>, todo |-> {}, reason |-> s.rs[x].reason]]
+              !.pcS = [pc |-> "s0", by |-> <<"reset", x>>, rtp |-> <<>>, todo |-> {}, reason |-> s.rs[x].reason,
+                       dl |-> s.rs[x].dl, tterm |-> 0, treap |-> 0]]
 
 \* shutdown finished: generation++, mutex released
 ResetFinishEn(s, x) == s.rs[x].pc = "r2" /\ s.pcS.pc = "done" /\ s.pcS.by = <<"reset", x>>
 ResetFinishDo(s, x) ==
-    [s EXCEPT !.gen = @ + 1, !.hm = "free", !.rs[x].pc = "r3",
-              !.pcS = [pc |-> "off", by |-> <<>>, rtp |-> <<>>, todo |-> {}, reason |-> ""]]
+    [s EXCEPT !.gen = @ + 1, !.hm = "free", !.rs[x].pc = "r3", !.pcS = PcSOff]
 
 \* reinitialize (rapidContext.Clear): appctx keys, renderer, initDone, registration service, flows
 ResetClearEn(s, x) == s.rs[x].pc = "r3"
@@ -439,6 +448,24 @@ ResetServerClearDo(s, x) ==
     [Release([s EXCEPT !.srv.done = "empty", !.srv.phase = "idle", !.srv.cached = NoCached]) EXCEPT
         !.rdone = @ + 1, !.rs = [y \in DOMAIN s.rs \ {x} |-> s.rs[y]]]
 
+\* Server.Reset / Server.Shutdown called directly by the platform driver (observable Call / Ret)
+DriverResetEn(s) == <<0, "X">> \notin DOMAIN s.rs
+DriverResetDo(s, reason, dl) ==
+    [s EXCEPT !.rs = [x \in DOMAIN s.rs \cup {<<0, "X">>} |->
+                         IF x = <<0, "X">> THEN [pc |-> "r0", reason |-> reason, dl |-> dl] ELSE s.rs[x]],
+              !.drv = "reset", !.drvDl = dl]
+DriverResetRetEn(s) == s.drv = "reset" /\ s.rdone > 0
+DriverResetRetDo(s) == [Release([s EXCEPT !.rdone = @ - 1]) EXCEPT !.drv = "idle"]
+
+DriverShutdownEn(s) == s.drv = "idle"
+DriverShutdownDo(s) == [s EXCEPT !.drv = "shut"]
+DriverShutdownLockEn(s) == s.drv = "shut" /\ s.hm = "free" /\ s.pcS.pc = "off"
+DriverShutdownLockDo(s, dl) ==
+    [s EXCEPT !.hm = "shutdown", !.drv = "shutw",
+              !.pcS = [pc |-> "s0", by |-> <<"driver", 0>>, rtp |-> <<>>, todo |-> {}, reason |-> "spindown", dl |-> dl, tterm |-> 0, treap |-> 0]]
+DriverShutdownRetEn(s) == s.drv = "shutw" /\ s.pcS.pc = "done" /\ s.pcS.by = <<"driver", 0>>
+DriverShutdownRetDo(s) == [s EXCEPT !.hm = "free", !.drv = "idle", !.srv.phase = "idle", !.pcS = PcSOff]
+
 ----------------------------------------------------------------------------
 (* shutdown(): TERM/KILL/SHUTDOWN choreography (shutdown.go)               *)
 
@@ -456,7 +483,7 @@ ShutBeginDo(s) ==
        ELSE [s1 EXCEPT !.pcS.pc = IF HasChan(s, rp) THEN "termrt" ELSE "agents"]
 
 \* no agents: Kill(runtime) (observable KillCall/KillRet); a live process dies by signal 9
-Kill(s, p) == IF ProcAlive(s, p) THEN [s EXCEPT !.procs[p].st = "dead", !.procs[p].ev = "pending"] ELSE s
+Kill(s, p) == IF ProcAlive(s, p) THEN [s EXCEPT !.procs[p].st = "dead", !.procs[p].ev = "dying"] ELSE s
 
 ShutKillRuntimeNowEn(s) == s.pcS.pc = "killrt0"
 ShutKillRuntimeNowDo(s) == [Kill(s, s.pcS.rtp) EXCEPT !.pcS.pc = "reap"]
@@ -508,7 +535,11 @@ ShutReapTimeoutDo(s) == [s EXCEPT !.shutOn = FALSE, !.pcS.pc = "done"]
 
 \* a process exits by itself or is signalled from outside (observable: ProcExit)
 ProcExitEn(s, p) == ProcAlive(s, p)
-ProcExitDo(s, p) == [s EXCEPT !.procs[p].st = "dead", !.procs[p].ev = "pending"]
+ProcExitDo(s, p) == [s EXCEPT !.procs[p].st = "dead", !.procs[p].ev = "dying"]
+
+\* the supervisor sends the termination event of a dead process (observable: ExitSend); delivery may lag
+ExitSendEn(s, p) == p \in DOMAIN s.procs /\ s.procs[p].ev = "dying"
+ExitSendDo(s, p) == [s EXCEPT !.procs[p].ev = "pending"]
 
 \* w0: the watcher receives the termination event (observable: ExitDelivered)
 WatchRecvEn(s, p) == s.pcW.pc = "idle" /\ p \in DOMAIN s.procs /\ s.procs[p].ev = "pending"
@@ -753,7 +784,7 @@ IssueDo(s, c, call) == [WithCall(s, c, call) EXCEPT !.ncalls = @ + 1]
 (* explained away as "the timer happened to fire first".                   *)
 
 Urgent(s) ==
-    \/ LaunchExtEn(s) \/ LaunchRuntimeEn(s) \/ AfterRuntimeReadyEn(s) \/ AgentsReadyEn(s) \/ InitEndEn(s)
+    \/ InitLockEn(s) \/ LaunchExtEn(s) \/ LaunchRuntimeEn(s) \/ AfterRuntimeReadyEn(s) \/ AgentsReadyEn(s) \/ InitEndEn(s)
     \/ InvokeLockEn(s) \/ InvokeInitFailedEn(s) \/ DispatchEn(s) \/ AwaitResponseEn(s)
     \/ AwaitRuntimeBackEn(s) \/ AwaitAgentsBackEn(s) \/ InvokeReturnEn(s)
     \/ \E k \in DOMAIN s.iv :
@@ -763,6 +794,7 @@ Urgent(s) ==
          \/ MainAfterResetEn(s, k) \/ MainAfterTimeoutEn(s, k)
     \/ \E x \in DOMAIN s.rs :
          \/ ResetCancelEn(s, x) \/ ResetLockEn(s, x) \/ ResetFinishEn(s, x) \/ ResetClearEn(s, x) \/ ResetServerClearEn(s, x)
+    \/ DriverShutdownLockEn(s) \/ DriverShutdownRetEn(s) \/ DriverResetRetEn(s)
     \/ ShutBeginEn(s) \/ ShutKillRuntimeNowEn(s) \/ ShutTermRuntimeEn(s) \/ ShutRuntimeExitedEn(s) \/ ShutAgentsEn(s)
     \/ (\E p \in s.pcS.todo : ShutAgentExitedEn(s, p) \/ (ShutAgentKillEn(s, p) /\ p \notin s.shutAwait))
     \/ ShutAgentsJoinedEn(s) \/ ShutReapedEn(s)
